@@ -93,7 +93,28 @@ def prove(run, only_updates=False):
                                 x._switch_direction()
                             return x
                         return f
+                    def two_site_sweep_probe(x):
+                        # per-bond limits: 1 everywhere except on the bond being cut, where the limit is above every block size - nothing is lost iff the update
+                        # reads the entry of exactly that bond (bond_dims convention: the bond between sites i and i+1 is entry i+1), in both sweep directions
+                        x = x.ensure_left_canonical()
+                        for _half in range(2):
+                            for imps in list(x.iter_idx_list(full=True)):
+                                if (x.to_right and imps == n - 1) or ((not x.to_right) and imps == 0):
+                                    break
+                                cidx = [imps, imps + 1] if x.to_right else [imps - 1, imps]
+                                cfg = CompressConfig(CompressCriteria.fixed, max_bonddim=1)
+                                cfg.set_bonddim(n + 1)
+                                lim = np.ones(n + 1, dtype=int)
+                                lim[cidx[1]] = 10 ** 4
+                                cfg.max_dims = lim
+                                x.compress_config = cfg
+                                qnbigl, qnbigr, _ = x._get_big_qn(cidx)
+                                cs = np.tensordot(np.asarray(x[cidx[0]].array), np.asarray(x[cidx[1]].array), axes=1)
+                                x._update_mps(cs, cidx, qnbigl, qnbigr, 0)
+                            x._switch_direction()
+                        return x
                     if n >= 2:
+                        yield "two_site_update_sweep_limit_only_on_the_cut_bond", "MatrixProduct._update_mps", two_site_sweep_probe
                         yield "two_site_update_sweep", "MatrixProduct._update_mps", two_site_sweep(0)
                         yield "two_site_update_sweep_with_sector_perturbation", "MatrixProduct._update_mps", two_site_sweep(0.5)
                 with SH.kernel_stub_mode():
